@@ -299,3 +299,37 @@ pub fn run_check(tier: Tier) -> Report {
     let _ = Arc::new(0);
     rep
 }
+
+/// `./check C06 quick --replay <file>`: re-execute one recorded schedule of one scenario
+pub fn replay(file: &serde_json::Value) -> i32 {
+    let r = &file["replay"];
+    let sc = &r["scenario"];
+    let Some(cfg) = TrkCfg::from_json(&sc["config"]) else { machinery_error("replay file: cannot parse the tracker configuration") };
+    let variant = sc["batches_variant"].as_u64().unwrap_or(0) as usize;
+    let discipline = if sc["discipline"].as_str() == Some("consumer-thread") { 1 } else { 0 };
+    let choices: Vec<usize> = r["schedule"]["choices"].as_array().map(|a| a.iter().map(|x| x.as_u64().unwrap_or(0) as usize).collect()).unwrap_or_default();
+    let bs = batches(variant);
+    let reference = simple_reference(&cfg, &bs);
+    let ecfg = sched::ExploreCfg { window: (1, 2), max_steps: 100_000, ..Default::default() };
+    let (c2, b2) = (cfg.clone(), bs.clone());
+    let f = Arc::new(move || run(&c2, &b2, discipline));
+    let x = sched::run_one(&ecfg, &choices, &f);
+    println!("scenario {sc}\nschedule {}", x.schedule_json());
+    match &x.outcome {
+        sched::Outcome::Done(o) => match judge(o, &bs, &reference) {
+            Ok(()) => {
+                println!("the recorded schedule no longer violates the property");
+                0
+            }
+            Err((k, w)) => {
+                println!("VIOLATION property=C06 replay=(replayed) {k}: {w}");
+                1
+            }
+        },
+        sched::Outcome::Machinery(m) => machinery_error(&format!("the recorded schedule does not fit the current code: {m}")),
+        o => {
+            println!("VIOLATION property=C06 replay=(replayed) {}", format!("{o:?}").chars().take(300).collect::<String>());
+            1
+        }
+    }
+}
